@@ -6,9 +6,11 @@ Hypothesis strategy inside a property module (vf/props/cNN.py).
 """
 from __future__ import annotations
 
+import contextlib
 import hashlib
 import json
 import os
+import signal
 import sys
 import traceback
 from collections import Counter
@@ -243,3 +245,33 @@ def derive_seed(base: int, *parts) -> int:
 # (edge extensions, far field, near axis), not a difference between the routes.
 _EPS = 2.220446049250313e-16
 NOISE_STEPS = tuple(s * r for r in (8 * _EPS, 1e-13, 1e-11) for s in (1.0, -1.0))
+
+
+class CaseFailed(Exception):
+    """Raised inside a Hypothesis test body when a case has a not-yet-known violation."""
+
+
+class CaseTimeout(BaseException):
+    """Raised by the per-case watchdog (BaseException: not swallowed by `except Exception`)."""
+
+
+@contextlib.contextmanager
+def watchdog(seconds):
+    """Wall-clock guard around one case.  A trip is 'inconclusive' for every property except
+    C15 (which runs its own CPU-time watchdog and turns a confirmed trip into a verdict)."""
+    if not seconds:
+        yield
+        return
+
+    def handler(signum, frame):
+        raise CaseTimeout()
+
+    old = signal.signal(signal.SIGALRM, handler)
+    signal.setitimer(signal.ITIMER_REAL, seconds)
+    try:
+        yield
+    finally:
+        signal.setitimer(signal.ITIMER_REAL, 0)
+        signal.signal(signal.SIGALRM, old)
+
+
